@@ -41,6 +41,29 @@ def f_subj_2047(m):
     m["subject"] = "=?utf-8?q?h=C3=A9llo_w=C3=B6rld?= and =?iso-8859-1?b?Y2Fm6Q==?="
 
 
+# one value mixing the ingredients that take different code paths when a header is turned into an IMAP
+# string: a character outside latin-1 (forces an RFC 2047 encoded-word on output) together with the
+# characters that need escaping in a quoted string
+def f_subj_2047_quote(m):
+    m["subject"] = "=?utf-8?q?say_=22hi=22_=E2=98=83_snowman?="
+
+
+def f_subj_2047_backslash(m):
+    m["subject"] = "=?utf-8?b?" + __import__("base64").b64encode("C:\\temp\\x \u2603".encode("utf-8")).decode() + "?="
+
+
+def f_subj_utf8_quote(m):
+    m["subject"] = 'raw "quoted" \u2603 and C:\\dir'.encode("utf-8")
+
+
+def f_subj_latin2047_quote(m):
+    m["subject"] = "=?iso-8859-1?q?caf=E9_=22cr=E8me=22_a=5Cb?="
+
+
+def f_from_2047_quote(m):
+    m["from"] = "=?utf-8?q?Zo=C3=AB_=22Z=22_=CE=A9mega?= <zoe@example.com>"
+
+
 def f_subj_folded(m):
     m["subject"] = b"a long subject that is\r\n folded over\r\n\tthree lines"
 
